@@ -1197,3 +1197,85 @@ mod d30 {
 		assert!(res.is_ok(), "D30: a failing commit behind a slow one panicked instead of returning an error: {:?}", res.err());
 	}
 }
+
+// D31: lost wake-up in the memtable flush task.  wake_up_memtable() skips the notify while `memtable_running` is set; the
+// task checks has_pending_immutables() and only LATER clears `memtable_running`.  Rotations that fall into that window
+// leave immutable memtables queued with no wake-up pending; with two of them the write stall never ends.
+mod d31 {
+	use std::sync::atomic::{AtomicBool, AtomicUsize, Ordering};
+	use std::sync::Arc;
+	use std::time::Duration;
+
+	use crate::compaction::CompactionStrategy;
+	use crate::error::{BackgroundErrorHandler, Result};
+	use crate::lsm::CompactionOperations;
+	use crate::task::TaskManager;
+	use crate::Options;
+
+	struct StallProvider;
+	impl crate::stall::WriteStallCountProvider for StallProvider {
+		fn get_stall_counts(&self) -> crate::stall::StallCounts {
+			crate::stall::StallCounts { immutable_memtables: 0, l0_files: 0 }
+		}
+	}
+
+	struct Core {
+		flushes: AtomicUsize,
+		pending: AtomicUsize,
+		in_check: AtomicBool,
+		release_check: AtomicBool,
+		eh: Arc<BackgroundErrorHandler>,
+	}
+	impl CompactionOperations for Core {
+		fn compact_memtable(&self) -> Result<()> {
+			self.flushes.fetch_add(1, Ordering::SeqCst);
+			let _ = self.pending.fetch_update(Ordering::SeqCst, Ordering::SeqCst, |p| Some(p.saturating_sub(1)));
+			Ok(())
+		}
+		fn compact(&self, _s: Arc<dyn CompactionStrategy>) -> Result<()> {
+			Ok(())
+		}
+		fn error_handler(&self) -> Arc<BackgroundErrorHandler> {
+			Arc::clone(&self.eh)
+		}
+		fn has_pending_immutables(&self) -> bool {
+			// what the real implementation returns at this instant ...
+			let answer = self.pending.load(Ordering::SeqCst) > 0;
+			// ... and the schedule point: the test thread rotates twice right after this check
+			self.in_check.store(true, Ordering::SeqCst);
+			while !self.release_check.load(Ordering::SeqCst) {
+				std::thread::sleep(Duration::from_millis(2));
+			}
+			answer
+		}
+	}
+
+	#[tokio::test(flavor = "multi_thread", worker_threads = 4)]
+	async fn d31_rotations_between_pending_check_and_running_clear_are_never_flushed() {
+		let core = Arc::new(Core {
+			flushes: AtomicUsize::new(0),
+			pending: AtomicUsize::new(1),
+			in_check: AtomicBool::new(false),
+			release_check: AtomicBool::new(false),
+			eh: Arc::new(BackgroundErrorHandler::new()),
+		});
+		let provider: Arc<dyn crate::stall::WriteStallCountProvider> = Arc::new(StallProvider);
+		let stall = Arc::new(crate::stall::WriteStallController::new(provider, crate::stall::StallThresholds { memtable_limit: 2, l0_file_limit: 12 }));
+		let tm = TaskManager::new(Arc::clone(&core) as Arc<dyn CompactionOperations>, Arc::new(Options::default()), stall);
+		tm.wake_up_memtable(); // first rotation: one immutable pending
+		while !core.in_check.load(Ordering::SeqCst) {
+			tokio::time::sleep(Duration::from_millis(2)).await;
+		}
+		// the task has flushed it and evaluated has_pending_immutables() == false, but has not cleared `running` yet.
+		// Two more rotations happen now (this is what rotate_memtable + wake_up_memtable do):
+		core.pending.fetch_add(2, Ordering::SeqCst);
+		tm.wake_up_memtable();
+		tm.wake_up_memtable();
+		core.release_check.store(true, Ordering::SeqCst);
+		// nothing else will ever wake the task: stalled writers wait for a flush
+		tokio::time::sleep(Duration::from_millis(800)).await;
+		let left = core.pending.load(Ordering::SeqCst);
+		tm.stop().await;
+		assert_eq!(left, 0, "D31: {left} immutable memtable(s) stay queued with no wake-up pending (flushes run: {})", core.flushes.load(Ordering::SeqCst));
+	}
+}
